@@ -6,12 +6,17 @@ import sys, subprocess, glob, os, re
 wt, d = sys.argv[1], sys.argv[2]
 def sh(*a, **k): return subprocess.run(a, capture_output=True, text=True, **k)
 sh("git", "-C", wt, "checkout", "-q", "--", "."); sh("git", "-C", wt, "clean", "-fdq")
+def alarms():
+    out = sh("/verif/bin/hpcheck", "-repo", wt, "-verif", "/var/tmp/vtest", "-property", "ALL", "-tier", "quick")
+    return [l for l in out.stdout.splitlines() if re.search(r"\[[\w@]+ (violated|undecided)\]", l) or l.startswith("BROKEN")]
+norm = lambda l: re.sub(r"^\S*: ", "", l)[:150]
+base = set(norm(l) for l in alarms())
+print("base alarms on the clean worktree:", len(base))
 for diff in sorted(glob.glob(os.path.join(d, "R*.diff"))):
     r = sh("git", "-C", wt, "apply", diff)
     if r.returncode != 0:
         print(os.path.basename(diff), "DOES NOT APPLY:", r.stderr.strip()[:200]); continue
-    out = sh("/verif/bin/hpcheck", "-repo", wt, "-verif", "/var/tmp/vtest", "-property", "ALL", "-tier", "quick")
-    bad = [l for l in out.stdout.splitlines() if re.search(r"\[[\w@]+ (violated|undecided)\]", l) or l.startswith("BROKEN")]
+    bad = [l for l in alarms() if norm(l) not in base]
     print(os.path.basename(diff), "silent" if not bad else "ALARMS %d" % len(bad))
     for l in bad: print("    ", l[:400])
     sh("git", "-C", wt, "checkout", "-q", "--", "."); sh("git", "-C", wt, "clean", "-fdq")
